@@ -66,6 +66,16 @@ func sameOpt(a, b any) bool {
 
 var errProbe = errors.New("probe exec failure")
 
+// errProbeCtx: the same failure reported as a per-attempt timeout (wraps a context error although the run's context is alive)
+var errProbeCtx = fmt.Errorf("%w: sub-request: %w", errProbe, context.DeadlineExceeded)
+
+func probeErr(cs *CfgCase) error {
+	if (len(cs.Seq)+cs.Split)%2 == 1 {
+		return errProbeCtx
+	}
+	return errProbe
+}
+
 // buildPlain constructs a NodeBuilder along the case's route and returns it with its probe.
 func buildPlain(cs *CfgCase) (*flyt.NodeBuilder, *cfgProbe) {
 	pr := &cfgProbe{prepTag: -1, execTag: -1, postTag: -1, fbTag: -1}
@@ -80,11 +90,11 @@ func buildPlain(cs *CfgCase) (*flyt.NodeBuilder, *cfgProbe) {
 		return func(context.Context, flyt.Result) (flyt.Result, error) {
 			pr.execTag = tag
 			pr.execCalls++
-			return flyt.Result{}, errProbe
+			return flyt.Result{}, probeErr(cs)
 		}
 	}
 	execA := func(tag int) func(context.Context, any) (any, error) {
-		return func(context.Context, any) (any, error) { pr.execTag = tag; pr.execCalls++; return nil, errProbe }
+		return func(context.Context, any) (any, error) { pr.execTag = tag; pr.execCalls++; return nil, probeErr(cs) }
 	}
 	postR := func(tag int) func(context.Context, *flyt.SharedStore, flyt.Result, flyt.Result) (flyt.Action, error) {
 		return func(context.Context, *flyt.SharedStore, flyt.Result, flyt.Result) (flyt.Action, error) {
@@ -326,6 +336,15 @@ func runCfgPlain(cs *CfgCase) (fs []finding) {
 	}
 	if string(act) != wantAct {
 		add("action:"+route, "probe run returned %q, want %q", act, wantAct)
+	}
+	if pr.twin != nil {
+		// the second node built from the very same option slice behaves as configured by that slice
+		ft := fold(cs.Seq[:cs.Split])
+		pr.prepTag, pr.execTag, pr.postTag, pr.fbTag, pr.execCalls = -1, -1, -1, -1, 0
+		_, _ = flyt.Run(context.Background(), pr.twin, flyt.NewSharedStore())
+		if pr.prepTag != ft[sPrep] || pr.execTag != ft[sExec] || (ft[sExec] >= 0 && pr.fbTag != ft[sFB]) {
+			add("second-node-from-same-options:behaviour", "a second node built from the same option slice ran prep variant %d / exec variant %d / fallback variant %d; the options in the slice install %d / %d / %d", pr.prepTag, pr.execTag, pr.fbTag, ft[sPrep], ft[sExec], ft[sFB])
+		}
 	}
 	return
 }
